@@ -1,8 +1,8 @@
 /* C07: capacity contract and loss-free sequential FIFO, for every wrap position */
 #include "rb_common.h"
 
-static const size_t SIZES[] = { 4083, 4084, 1, 100, 5000 };
-#define NSIZES 5
+static const size_t SIZES[] = { 4083, 4084, 1, 100, 5000, 9000 };    /* 9000: a ring of three pages, not a power of two */
+#define NSIZES 6
 #define MAXQ 64
 static struct { size_t len; int pat; uint32_t seed; } Q[MAXQ];
 static int qh, qt;                 /* model deque [qh,qt) */
@@ -186,7 +186,7 @@ static void init(void)
 	depth = (int)vp_param("depth", 3, 4);
 	allpos = (int)vp_param("all_positions", 0, 0);
 	fullalpha = (int)vp_param("full_alphabet", 1, 1);
-	sizes_mask = (int)vp_param("sizes_mask", 31, 31);
+	sizes_mask = (int)vp_param("sizes_mask", 63, 63);
 }
 
 int main(int argc, char **argv)
@@ -194,7 +194,7 @@ int main(int argc, char **argv)
 	static struct vp_harness h = {
 		.property = "C07", .name = "c07_rb_seq", .level = "model_checking",
 		.run = run, .init = init, .batch = 4000, .private_shm = 1,
-		.rule = "real rings of requested size S in {1,100,4083,4084,5000}, with/without semaphore, pre-filled (through the API) with stale "
+		.rule = "real rings of requested size S in {1,100,4083,4084,5000,9000}, with/without semaphore, pre-filled (through the API) with stale "
 			"words that equal the ring's marker constants, positioned at every start word (all_positions) or at all wrap-critical words; "
 			"every sequence of <= depth operations over write/alloc+commit (11 lengths incl. S-17..S+1, two payloads), read, read into a "
 			"too-small buffer, peek, reclaim, compared with a deque model; refused operations must leave the full ring image bit-identical; "
